@@ -654,13 +654,32 @@ func checkC18(c *Ctx) {
 			continue // reported above
 		}
 		var lookups []*ssa.Lookup
-		instrsOf(fn, func(in ssa.Instruction) {
-			if lk, ok := in.(*ssa.Lookup); ok {
-				if mt, isMap := lk.X.Type().Underlying().(*types.Map); isMap && mt.Key().String() == "string" {
-					lookups = append(lookups, lk)
+		collect := func(f *ssa.Function) {
+			instrsOf(f, func(in ssa.Instruction) {
+				if lk, ok := in.(*ssa.Lookup); ok {
+					if mt, isMap := lk.X.Type().Underlying().(*types.Map); isMap && mt.Key().String() == "string" {
+						lookups = append(lookups, lk)
+					}
+				}
+			})
+		}
+		collect(fn)
+		// … and the look-ups of the parser's own helpers that are handed the option map
+		// (`gzipIntOption(cfg, "level", fallback)`): the helper's result has to reach a result too
+		seenH := map[*ssa.Function]bool{fn: true}
+		for _, ci := range callsIn(fn) {
+			h := StaticFn(ci)
+			if h == nil || seenH[h] || !p.IsHelios(h) || h.Blocks == nil || fnPkg(h) != fnPkg(fn) {
+				continue
+			}
+			for _, a := range ci.Common().Args {
+				if mt, isMap := a.Type().Underlying().(*types.Map); isMap && mt.Key().String() == "string" {
+					seenH[h] = true
+					collect(h)
+					break
 				}
 			}
-		})
+		}
 		var rets []*ssa.Return
 		instrsOf(fn, func(in ssa.Instruction) {
 			if r, ok := in.(*ssa.Return); ok && len(r.Results) > 0 && isConstNil(r.Results[len(r.Results)-1]) {
@@ -669,6 +688,9 @@ func checkC18(c *Ctx) {
 		})
 		for _, lk := range lookups {
 			key := p.Desc(lk.Index, nil)
+			if lk.Parent() != fn {
+				key = lk.Parent().Name() + "(" + key + ")"
+			}
 			used := false
 			for _, r := range rets {
 				for _, res := range r.Results[:len(r.Results)-1] {
